@@ -62,6 +62,10 @@ def check_history(case):
                     plc.get_tag_list(program="*")
             except PycommError:
                 pass
+            except harness.StepBudgetExceeded:
+                discs.append(Disc("nonterminating", f"{op['op']} kept sending requests (a replayed reply after a repeated sequence count never ends the transfer)"))
+                harness.CURRENT["budget"] = 10_000
+                break
         last = conn["last_seq"]
         first = target_val
         n_msgs = conn["n"] - start_n
@@ -92,7 +96,7 @@ def long_run(n, phase):
     """n consecutive connected generic messages starting at counter phase `phase`"""
     from pycomm3 import CIPDriver
     tgt = RefTarget({"generic": {(0x0E, 1, 1, 1): (0, [], b"\x01\x00")}})
-    harness.install(tgt)
+    harness.install(tgt, budget=n + phase + 10_000)
     try:
         d = CIPDriver("10.0.0.1")
         d.open()
